@@ -25,7 +25,8 @@ def classify(op):
     if "SBitEntry" in op and op.startswith("Add"):
         return KEYS["sbit"]
     if "BitEntry::SetNumBits(str)" in op and "SBit" not in op:
-        return KEYS["numbits"]
+        # the return code differs because of the element-code read-back; the stored scalar because of the duplicate assignment
+        return KEYS["numbits"] if (op.endswith(" library") or op.endswith(" object")) else KEYS["elem"]
     if "scalar-element" in op:
         return KEYS["elem"]
     if op.startswith("Entry::Rename") or op.startswith("Entry::Move"):
@@ -91,8 +92,15 @@ def tree_diff(a, b):
             continue
         if x is None or y is None:
             bad.append((k, "present on one side only")); continue
-        fx = [l for l in x.split(b"\n") if not any(n in l for n in KNOWN_NAMES)]
-        fy = [l for l in y.split(b"\n") if not any(n in l for n in KNOWN_NAMES)]
+        # the header carries the time of writing: the two handles may be flushed in different seconds
+        fx = [l for l in x.split(b"\n") if not any(n in l for n in KNOWN_NAMES) and not l.startswith(b"# Written on ")]
+        fy = [l for l in y.split(b"\n") if not any(n in l for n in KNOWN_NAMES) and not l.startswith(b"# Written on ")]
+        if x == b"" or y == b"":
+            # a fragment that only one side had a reason to write (the known Rename/Move deviation moves n_phase2 into it
+            # on the C side only): compare without the header the library writes
+            boiler = lambda l: l == b"" or l.startswith(b"#") or l.split(b" ")[0] in (b"/VERSION", b"/ENDIAN", b"/PROTECT", b"/ENCODING")
+            fx = [l for l in fx if not boiler(l)]
+            fy = [l for l in fy if not boiler(l)]
         if fx != fy:
             bad.append((k, "content differs"))
     return bad
@@ -196,10 +204,9 @@ def main():
             if td:
                 diffs.setdefault("cxx/side-effects-on-disk", []).append(("files differ after the same operations: %s" % td[:4], variant, seed))
     for key, l in sorted(diffs.items()):
-        found_any = True
-        chk.violation(key, "C++ method and the C function it wraps disagree: %s (%d such comparisons)" % (l[0][0], len(l)),
+        found_any |= bool(chk.violation(key, "C++ method and the C function it wraps disagree: %s (%d such comparisons)" % (l[0][0], len(l)),
                       {"kind": "impl-vs-spec", "first": l[0][0], "variant": l[0][1], "seed": l[0][2], "count": len(l),
-                       "how": "checks/C20.py make_dirfile(variant) twice (A,B); harness/C20/cxxdiff A B <seed> <rounds>"})
+                       "how": "checks/C20.py make_dirfile(variant) twice (A,B); harness/C20/cxxdiff A B <seed> <rounds>"}))
     # 4. dirfile2ascii
     cells = 0
     a = os.path.join(work, "U")
@@ -210,7 +217,8 @@ def main():
         variant = i % 2
         n, spf2 = make_dirfile(a, sub, variant)
         fieldsets = [["fdata"], ["edata", "iflt", "ubit"], ["ifast", "uf2"], ["xdata", "ifast"], ["glin", "Eph", "omul", "Xcst"],
-                     ["fnosuchfield"], ["idata", "flut", "gA_x_Z"], ["ff2"], ["adata", "Gpoly"]] + ([["fdang"]] if variant == 1 else [])
+                     ["fnosuchfield"], ["idata", "flut", "gA_x_Z"], ["ff2"], ["adata", "Gpoly"],
+                     ["idata", "ifast"], ["ibit", "xf2", "ifast"], ["udata", "if2", "emul"], ["isbit", "odata"]] + ([["fdang"]] if variant == 1 else [])
         ranges = [(0, 0), (1, 3), (2, 0), (n - 1, 1), (n, 2), (0, n + 3), (-1, 2), (3, 1)]
         for fs in fieldsets:
             for (ff, nf) in (ranges if chk.thorough else sub.sample(ranges, 4) + [(0, n + 3)]):
@@ -259,11 +267,12 @@ def main():
                     ok = rc1 == 0 and len(got) == len(want)
                     if ok:
                         for g, w in zip(got, want):
-                            gt, wt = g.split(delim), w.split(delim)
-                            if len(gt) != len(wt) or any(x != y and y != "~" for x, y in zip(gt, wt)):
+                            # "~" = interpolated column (not compared); everything else must match literally
+                            pat = re.escape(delim).join(".*?" if t == "~" else re.escape(t) for t in w.split(delim))
+                            if not re.fullmatch(pat, g, re.S):
                                 ok = False
                                 break
-                            cells += sum(1 for y in wt if y != "~" and y != "")
+                            cells += sum(1 for y in w.split(delim) if y != "~" and y != "")
                     if not ok:
                         ascii_bad.append(("output differs from cell-by-cell gd_getdata (exit %d)" % rc1, cmd, o1[:300], "\n".join(want)[:300]))
     if ascii_bad:
